@@ -341,6 +341,9 @@ class GenCfg:
         self.p_else = 0.7
         self.threaded = False      # emit already-threaded (`from`) state where trivially possible
         self.launch_fields = False
+        self.p_llvm = 0.35         # share of calls that are llvm.call (opaque, never annotated)
+        self.p_repeat = 0.25       # a triple repeats the field values of an earlier triple (same accelerator)
+        self.p_prethreaded = 0.0   # share of loops that already carry the state as iter_arg/result
         for k, v in kw.items():
             setattr(self, k, v)
 
@@ -357,6 +360,8 @@ class _Gen:
         self.nloops = 0
         self.nifs = 0
         self.items = 0
+        self.history = []
+        self.uses_llvm = False
 
     def fresh(self, p="v"):
         self.k += 1
@@ -370,6 +375,12 @@ class _Gen:
     def triple(self, pool, ind, last_state):
         a = self.rng.choice(self.accs)
         vals = [(f, self.rng.choice(pool)) for f in self.fields[a]]
+        # repeat the configuration of an earlier triple (wherever it was: inside a branch, a loop body ...)
+        # when all its values are visible here
+        olds = [v for (b, v) in self.history if b == a and all(x in pool for _, x in v)]
+        if olds and self.rng.random() < self.cfg.p_repeat:
+            vals = list(self.rng.choice(olds))
+        self.history.append((a, list(vals)))
         s, t = self.fresh("s"), self.fresh("t")
         frm = ""
         if self.cfg.threaded and last_state.get(a) and self.rng.random() < 0.5:
@@ -408,6 +419,27 @@ class _Gen:
                     opn = rng.choice(["arith.addi", "arith.muli", "arith.subi"])
                     inner.append(f"{ind}  {w2} = {opn} {w}, {o} : i32")
                     ipool.append(w2)
+                pre = [a for a in self.accs if last_state.get(a)]
+                if pre and rng.random() < cfg.p_prethreaded:
+                    # a loop that ALREADY carries the state of one accelerator (hand-threaded input):
+                    # iter_arg / result exist, the body is one threaded triple, later code is un-threaded
+                    a = rng.choice(pre)
+                    barg, res, s2, t2 = self.fresh("h"), self.fresh("r"), self.fresh("s"), self.fresh("t")
+                    vals = [(f, rng.choice(ipool)) for f in self.fields[a]]
+                    self.history.append((a, list(vals)))
+                    lines.append(f'{ind}{res} = scf.for {i} = {lb} to {ub} step {st} iter_args({barg} = {last_state[a]}) '
+                                 f'-> (!accfg.state<"{a}">) {{')
+                    lines += inner
+                    lines.append(f'{ind}  {s2} = accfg.setup "{a}" from {barg} to ('
+                                 + ", ".join(f'"{f}" = {v} : i32' for f, v in vals) + f') : !accfg.state<"{a}">')
+                    lines.append(f'{ind}  {t2} = "accfg.launch"({s2}) <{{param_names = [], accelerator = "{a}"}}> : '
+                                 f'(!accfg.state<"{a}">) -> !accfg.token<"{a}">')
+                    lines.append(f'{ind}  "accfg.await"({t2}) : (!accfg.token<"{a}">) -> ()')
+                    lines.append(f'{ind}  scf.yield {s2} : !accfg.state<"{a}">')
+                    lines.append(f"{ind}}}")
+                    last_state = {}
+                    self.nloops += 1
+                    continue
                 inner += self.block(ipool, depth + 1, ind + "  ", idx_vars + [i])
                 lines.append(f"{ind}scf.for {i} = {lb} to {ub} step {st} {{")
                 lines += inner
@@ -437,9 +469,14 @@ class _Gen:
             elif r < cfg.p_for + cfg.p_if + cfg.p_call:
                 callee = rng.choice(["@foo", "@bar"])
                 attr = ' {"accfg.effects" = #accfg.effects<none>}' if rng.random() < cfg.p_noeff else ""
-                if attr == "":
+                if attr == "" and rng.random() < cfg.p_llvm:
+                    self.uses_llvm = True
                     last_state = {}
-                lines.append(f"{ind}func.call {callee}(){attr} : () -> ()")
+                    lines.append(f"{ind}llvm.call @lfoo() : () -> ()")
+                else:
+                    if attr == "":
+                        last_state = {}
+                    lines.append(f"{ind}func.call {callee}(){attr} : () -> ()")
             elif r < cfg.p_for + cfg.p_if + cfg.p_call + cfg.p_pure:
                 v = self.fresh("a")
                 x, y = rng.choice(pool), rng.choice(pool)
@@ -468,7 +505,8 @@ def gen_module(rng, cfg: GenCfg | None = None) -> tuple[str, dict]:
     sig = ", ".join(f"{n} : {t}" for n, t, _ in g.params)
     text = "\n".join([f"func.func @f({sig}) {{"] + body + ["  func.return", "}",
                                                            "func.func private @foo() -> ()",
-                                                           "func.func private @bar() -> ()"]) + "\n"
+                                                           "func.func private @bar() -> ()"]
+                     + (["llvm.func @lfoo()"] if g.uses_llvm else [])) + "\n"
     return text, {"params": g.params, "loops": g.nloops, "ifs": g.nifs, "accs": g.accs}
 
 
